@@ -45,6 +45,8 @@ struct Case {
     /// a sibling module named `core` is in scope
     core_mod: bool,
     entry: Entry,
+    /// the definition comes out of a macro_rules! macro, the field type (a plain identifier) as an `ident` fragment
+    via_macro: bool,
 }
 
 fn gen(ch: &mut Ch, _thorough: bool) -> Option<Case> {
@@ -72,7 +74,11 @@ fn gen(ch: &mut Ch, _thorough: bool) -> Option<Case> {
     if list == 6 && (!ROWS[row].0.contains('T') || ROWS[row].0.contains("?Sized")) {
         return None;
     }
-    Some(Case { vector: ch.vector(), row, named, list, raw, core_mod, entry })
+    let via_macro = ch.flag();
+    if via_macro && (!matches!(ROWS[row].2, "u8" | "String") || raw || list > 2) {
+        return None;
+    }
+    Some(Case { vector: ch.vector(), row, named, list, raw, core_mod, entry, via_macro })
 }
 
 fn build(c: &Case, tier: &str) -> XCase {
@@ -93,7 +99,11 @@ fn build(c: &Case, tier: &str) -> XCase {
     if c.core_mod {
         s.push_str("#[allow(unused)] pub mod core { pub mod ops {} }\n");
     }
-    s.push_str(&format!("{head}\n{item}\n"));
+    if c.via_macro {
+        s.push_str(&format!("macro_rules! mk_def {{ ($t:ident) => {{ {head}\n{} }} }}\nmk_def!({fty});\n", crate::c10::replace_word(&item, fty, "$t")));
+    } else {
+        s.push_str(&format!("{head}\n{item}\n"));
+    }
     if c.list == 2 {
         // hand-written Deref so that DerefMut alone is derivable
         let ig = g.replace(" = u8", "").replace(" = 2", "");
@@ -132,8 +142,9 @@ fn build(c: &Case, tier: &str) -> XCase {
     atoms.insert(format!("field_ty={fty}"));
     atoms.insert(format!("generics={g}"));
     atoms.insert(format!("sibling_mod_core={}", c.core_mod));
+    atoms.insert(format!("via_macro={}", c.via_macro));
     XCase {
-        text: format!("{} {} {}{}", c.entry.name(), list, item, if c.core_mod { " [next to `mod core`]" } else { "" }),
+        text: format!("{} {} {}{}{}", c.entry.name(), list, item, if c.core_mod { " [next to `mod core`]" } else { "" }, if c.via_macro { " [generated by macro_rules!, field type as an ident fragment]" } else { "" }),
         code: s,
         expected: exp,
         atoms,
